@@ -31,6 +31,10 @@ type chanScript struct {
 	EarlyAt      int    `json:"early_at"`             // for early variants: end after this many own sends
 	YieldC       int    `json:"yield_client"`
 	YieldS       int    `json:"yield_server"`
+	// BurstPauseUs > 0: the closing side holds its last message back, lets the reader drain and park
+	// for this long, then sends the last message and SendAndClose back to back (data and close frame
+	// reach the parked reader together)
+	BurstPauseUs int `json:"burst_pause_us"`
 
 	// observations
 	mu       sync.Mutex
@@ -103,6 +107,10 @@ func c03HandleWithFirst(er *errs, ctx mpx.Context, ch mpx.Channel, first []byte)
 		if sc.Variant == 3 && sc.EarlyAt < nSend {
 			nSend = sc.EarlyAt
 		}
+		burst := sc.BurstPauseUs > 0 && sc.Variant == 0 && sc.CloseBy == 0 && nSend >= 1
+		if burst {
+			nSend--
+		}
 		wg.Add(1)
 		go func() {
 			defer wg.Done()
@@ -150,6 +158,14 @@ func c03HandleWithFirst(er *errs, ctx mpx.Context, ch mpx.Channel, first []byte)
 		if sc.Variant == 0 || sc.Variant == 3 {
 			<-sendDone
 			wg.Wait()
+			if burst && sc.srvSentAll(nSend) {
+				time.Sleep(time.Duration(sc.BurstPauseUs) * time.Microsecond)
+				if st := ch.Send(ctx, netfx.Make(netfx.Header{Conn: uint16(sc.Conn), Chan: sc.ID, Dir: 1, Seq: uint32(nSend)}, sc.S2C[nSend])); st.OK() {
+					sc.mu.Lock()
+					sc.srvSent = nSend + 1
+					sc.mu.Unlock()
+				}
+			}
 			if sc.CloseBy == 0 {
 				var p []byte
 				if sc.ClosePayload > 0 && sc.Variant == 0 {
@@ -183,6 +199,10 @@ func runC03Client(conn mpx.Conn, sc *chanScript, er *errs) {
 		if nSend < 1 {
 			nSend = 1
 		}
+	}
+	burst := sc.BurstPauseUs > 0 && sc.Variant == 1 && sc.CloseBy == 0 && nSend >= 2
+	if burst {
+		nSend--
 	}
 	var wg sync.WaitGroup
 	sendDone := make(chan struct{})
@@ -231,6 +251,14 @@ func runC03Client(conn mpx.Conn, sc *chanScript, er *errs) {
 	}
 	if sc.Variant == 1 || sc.Variant == 2 {
 		<-sendDone
+		if burst && sc.cliSentAll(nSend) {
+			time.Sleep(time.Duration(sc.BurstPauseUs) * time.Microsecond)
+			if st := ch.Send(ctx, netfx.Make(netfx.Header{Conn: uint16(sc.Conn), Chan: sc.ID, Dir: 0, Seq: uint32(nSend)}, sc.C2S[nSend])); st.OK() {
+				sc.mu.Lock()
+				sc.cliSent = nSend + 1
+				sc.mu.Unlock()
+			}
+		}
 		if sc.CloseBy == 0 {
 			var p []byte
 			if sc.ClosePayload > 0 && sc.Variant == 1 {
@@ -241,6 +269,9 @@ func runC03Client(conn mpx.Conn, sc *chanScript, er *errs) {
 	}
 	wg.Wait()
 }
+
+func (sc *chanScript) srvSentAll(n int) bool { sc.mu.Lock(); defer sc.mu.Unlock(); return sc.srvSent == n }
+func (sc *chanScript) cliSentAll(n int) bool { sc.mu.Lock(); defer sc.mu.Unlock(); return sc.cliSent == n }
 
 // verify applies the C03 oracle to one finished channel.
 func (sc *chanScript) verify() error {
@@ -333,6 +364,7 @@ func drawScripts(rt *rapid.T, cfg netConfig, conns int) []*chanScript {
 		sc.EarlyAt = rapid.IntRange(0, 6).Draw(rt, "earlyat")
 		sc.YieldC = rapid.IntRange(0, 3).Draw(rt, "yieldc")
 		sc.YieldS = rapid.IntRange(0, 3).Draw(rt, "yields")
+		sc.BurstPauseUs = []int{0, 0, 50, 300, 2000}[rapid.IntRange(0, 4).Draw(rt, "burst")]
 		out = append(out, sc)
 		if total > 6<<20 {
 			break
@@ -345,6 +377,7 @@ func TestC03_Delivery(t *testing.T) {
 	ev.Rule(c03, "rapid: configuration (window in {1,2,3,7,64,1000,65536,default}, write queue/read/write buffers in {16,17,100,4096,default}, compression, GOMAXPROCS in {1,2,16}, 1..3 connections) and 1..24 concurrent channels, each with a script: message sizes relative to the window in both directions, closing side and mode (SendAndClose with/without payload, Free, handler return), early ends, yield patterns; real mpx server and clients on loopback, one sender and one receiver goroutine per channel end; oracle: received is a prefix of sent (self-describing PRF payloads: same bytes, order, channel, no duplicates), complete whenever the receiver read to the end status without ending the channel and the sender finished; non-trivial = >=2 channels and (a message >= window/2 or >= a buffer size, or both directions active); distinct by script hash")
 	ev.Check(t, c03, func(rt *rapid.T) {
 		cfg := drawConfig(rt)
+		cfg.Sched = drawSched(rt)
 		conns := rapid.IntRange(1, 3).Draw(rt, "conns")
 		scripts := drawScripts(rt, cfg, conns)
 		kase := &c03case{Config: cfg, Conns: conns, Channels: scripts}
@@ -380,6 +413,11 @@ type failure struct{ key, msg string }
 
 // recvUntil receives the next message, or returns stopped=true when stop fires first.
 func recvUntil(ctx async.Context, ch mpx.Channel, stop <-chan struct{}) (msg []byte, st status.Status, stopped bool) {
+	if stop == nil {
+		// the canonical blocking call, with the caller's context (a handler's channel context on the server)
+		m, st := ch.Receive(ctx)
+		return m, st, false
+	}
 	for {
 		if stop != nil {
 			select {
@@ -406,6 +444,7 @@ func recvUntil(ctx async.Context, ch mpx.Channel, stop <-chan struct{}) (msg []b
 }
 
 func runC03(cfg netConfig, conns int, scripts []*chanScript) (f failure) {
+	defer cfg.Sched.install()()
 	withProcs(cfg.Procs, func() {
 		log := netfx.NewLogger()
 		er := &errs{}
